@@ -169,6 +169,23 @@ def do_spelling(case):
     return fails
 
 
+def do_reference_rt(case):
+    name, other, oval, prefix = case
+    cfg = '%s=%s\n%s=%s%s\n' % (other, oval, name, prefix, other)
+    fails = []
+    sig = {'kind': 'reference_rt', 'prefix': prefix}
+    r1 = D(cfg)
+    if not r1.ok:
+        return [(dict(sig, relation='dump-exit'), {'cfg': cfg, 'res': r1.brief()})]
+    r2 = D(r1.out)
+    if not r2.ok or r2.err.strip():
+        fails.append((dict(sig, relation='reload-diagnostic'), {'cfg': cfg, 'stderr': core.preview(r2.err)}))
+    if r2.out != r1.out:
+        a, b = cfgdump.plain(cfgdump.parse(r1.out)[0]), cfgdump.plain(cfgdump.parse(r2.out)[0])
+        fails.append((dict(sig, relation='idempotence'), {'cfg': cfg, 'value_diff': [(k, a[k], b.get(k)) for k in a if a[k] != b.get(k)][:5]}))
+    return fails
+
+
 def do_reference(case):
     name, other, oval, prefix = case
     reg = registry.by_name()
@@ -195,10 +212,23 @@ DIRECTIVES = [
     ('macro-open', 'macro-open BEGIN_X\n'), ('macro-close', 'macro-close END_X\n'), ('macro-else', 'macro-else ELSE_X\n'),
     ('macro_all', 'macro-open MO\nmacro-else ME\nmacro-close MC\n'),
     ('file_ext', 'file_ext CPP .xx\n'), ('file_ext2', 'file_ext C .c1 .c2\n'), ('file_ext_oc', 'file_ext OC+ .omm\n'),
+    ('file_ext_lower', 'file_ext cpp .ipp\n'), ('file_ext_oc_lower', 'file_ext oc+ .omm2\n'), ('file_ext_mixed', 'file_ext Java .jv2\n'),
+    ('cmd_upper', 'TYPE UPT\nSET FUNC_CALL upcall\nMACRO-OPEN UMO\nMACRO-CLOSE UMC\nFILE_EXT CPP .upx\n'),
+    ('set_lower', 'set func_call lowcall\n'), ('type_sep_comma', 'type TC1,TC2\n'), ('type_eq', 'type = TE1\n'),
+    ('file_ext_quoted', 'file_ext CPP ".q x"\n'), ('type_escaped_space', 'type T\\ SP\n'),
     ('mixed', 'type U32 U16\nset FUNC_CALL_USER _x\nmacro-open MO\nmacro-close MC\nfile_ext JAVA .jav\nindent_columns=3\n'),
 ]
 
-DIRECTIVE_PROBE = b'''MYTYPE a; T_A *b; T_Q c; U32 d; U16 * e;
+# known finding C15-K1 (words containing blanks are dumped unquoted): kept as directive cases, not drawn into random configs
+EXCLUDED_FROM_RANDOM = ('file_ext_quoted', 'type_escaped_space')
+
+DIRECTIVE_PROBE = b'''template<class T> class A { public: int x; A<T> * p; };
+int g = b<c>(d); UPT * q; TC1 * r; TE1 * s;
+void h() { upcall (1); lowcall (2); }
+UMO
+x = 1;
+UMC
+MYTYPE a; T_A *b; T_Q c; U32 d; U16 * e;
 int f(int x) { my_if (x) { mycall (x); _x ( x ); } MFN(x)
 BEGIN_X
 a = 1;
@@ -219,10 +249,31 @@ def do_directive(case):
     fails = []
     sig = {'kind': 'directive', 'directive': label.rstrip('0123456789')}
     check_roundtrip(text, {'indent_columns': '3'} if 'indent_columns' in text else {}, label, sig, fails)
+    r0 = D(text)
+    if r0.ok:
+        _, extras = cfgdump.parse(r0.out)
+        import shlex
+        words = []
+        for line in text.splitlines():
+            try:
+                parts = shlex.split(line.replace(',', ' ').replace('=', ' '))
+            except ValueError:
+                continue
+            if not parts:
+                continue
+            cmd = parts[0].lower()
+            if cmd in ('type', 'macro-open', 'macro-close', 'macro-else'):
+                words += parts[1:] if cmd == 'type' else parts[1:2]
+            elif cmd in ('set', 'file_ext'):
+                words += parts[2:]
+        dumped = ' '.join(extras)
+        missing = [w for w in words if w not in dumped]
+        if missing:
+            fails.append((dict(sig, relation='directive-lost-in-dump'), {'cfg': text, 'missing': missing, 'extras': extras[-12:]}))
     # behaviour on a probe that uses the words
     r1 = D(text)
     if r1.ok:
-        for name in ('p.c', 'p.xx', 'p.c1', 'p.omm', 'p.jav'):
+        for name in ('p.c', 'p.xx', 'p.c1', 'p.omm', 'p.jav', 'p.ipp', 'p.omm2', 'p.jv2', 'p.upx', 'p.q x'):
             a = run.fmt(DIRECTIVE_PROBE, 'C', text, name=name)[0] if name == 'p.c' else _assume(DIRECTIVE_PROBE, text, name)
             b = run.fmt(DIRECTIVE_PROBE, 'C', r1.out, name=name)[0] if name == 'p.c' else _assume(DIRECTIVE_PROBE, r1.out, name)
             if (a.status, a.out) != (b.status, b.out):
@@ -258,7 +309,7 @@ def do_random(case):
     for k, v in d.items():
         lines.append('%s = %s\n' % (k, quote_cfg(v) if byname[k]['type'] == 'str' else v))
     extra = []
-    for label, text in rng.sample(DIRECTIVES, rng.randint(0, 3)):
+    for label, text in rng.sample([d for d in DIRECTIVES if d[0] not in EXCLUDED_FROM_RANDOM], rng.randint(0, 3)):
         lines.append(text)
     rng.shuffle(lines)
     cfg = ''.join(lines)
@@ -293,6 +344,9 @@ def work(chunk):
             elif kind == 'reference':
                 fails = do_reference(case)
                 key, nt, cls = ('reference',) + tuple(case), True, ['reference' + case[3]]
+            elif kind == 'reference_rt':
+                fails = do_reference_rt(case)
+                key, nt, cls = ('reference_rt',) + tuple(case), True, ['reference_rt' + case[3]]
             elif kind == 'directive':
                 fails = do_directive(case)
                 key, nt, cls = ('directive', case[0]), True, ['directive']
@@ -361,6 +415,14 @@ def cases(ctx):
         else:
             oval = rng.choice(a['choices'])
         out.append(('reference', (a['name'], b['name'], oval, prefix)))
+    # references whose value may be outside the target's range (must be refused or accepted consistently, never half)
+    nums = [o for o in reg if o['type'] == 'num']
+    for _ in range(3000 if ctx.tier == 'thorough' else 400):
+        a, b = rng.sample(nums, 2)
+        blo = b['min'] if b['min'] is not None else 0
+        bhi = b['max'] if b['max'] is not None else blo + 5000
+        v = rng.choice([blo, bhi, rng.randint(blo, bhi), min(bhi, (a['max'] or 0) + 1), max(blo, min(bhi, (a['min'] or 0) - 1))])
+        out.append(('reference_rt', (a['name'], b['name'], str(v), rng.choice(['', '', '-']))))
     for d in DIRECTIVES:
         out.append(('directive', d))
     nrand = 4000 if ctx.tier == 'thorough' else 300
@@ -377,6 +439,8 @@ def replay(rep):
         return do_spelling(tuple(case))
     if kind == 'reference':
         return do_reference(tuple(case))
+    if kind == 'reference_rt':
+        return do_reference_rt(tuple(case))
     if kind == 'directive':
         return do_directive(tuple(case))
     return do_random(tuple(case))[0]
